@@ -198,9 +198,14 @@ class Ctx:
                     break
                 f = f.f_back
             raise CaseTimeout(in_repo, where)
+        # the watchdog counts the CPU time of THIS process (ITIMER_PROF), not wall-clock time:
+        # a loaded machine must not turn a slow case into a verdict; time spent in child
+        # processes (C compilers, C17's producer/consumer pairs) has its own, generous,
+        # wall-clock limits whose firing is inconclusive
+        limit = getattr(fn, "case_timeout", CASE_TIMEOUT)
         try:
-            old = signal.signal(signal.SIGALRM, _alarm)
-            signal.setitimer(signal.ITIMER_REAL, CASE_TIMEOUT)
+            old = signal.signal(signal.SIGPROF, _alarm)
+            signal.setitimer(signal.ITIMER_PROF, limit)
         except ValueError:      # not in the main thread
             old = None
         try:
@@ -210,14 +215,14 @@ class Ctx:
                 # the oracle's own arithmetic (plain Python on numbers) ran away: the input is
                 # too costly to judge, which says nothing about the code under test
                 self.count("skipped_reference_did_not_finish")
-                self.note(f"{check_name}: reference computation exceeded {CASE_TIMEOUT}s in "
+                self.note(f"{check_name}: reference computation exceeded {limit}s of CPU time in "
                           f"{to.where}; case skipped")
                 self.counters["case_timeouts_reference"] += 1
                 if self.counters["case_timeouts_reference"] >= 8:
                     raise StopWorkload() from None
                 return
             self.fail(check_name, case, "did-not-terminate",
-                      f"case did not finish within {CASE_TIMEOUT}s (non-termination or runaway "
+                      f"case did not finish within {limit}s of CPU time (non-termination or runaway "
                       f"cost in the code under test, innermost frame {to.where})")
             self.counters["case_timeouts"] += 1
             if self.counters["case_timeouts"] >= 3:
@@ -236,8 +241,8 @@ class Ctx:
                       f"{type(e).__name__}: {e}\n{tb}")
         finally:
             if old is not None:
-                signal.setitimer(signal.ITIMER_REAL, 0)
-                signal.signal(signal.SIGALRM, old)
+                signal.setitimer(signal.ITIMER_PROF, 0)
+                signal.signal(signal.SIGPROF, old)
 
     # -- (de)serialisation for shard merging --------------------------------
     def dump(self):
